@@ -42,7 +42,7 @@ func TestVerifC07(t *testing.T) {
 		req    reqSpec
 		policy string
 		succ   string // same | other
-		kind   string // crashmgr | zkloss
+		kind   string // crashmgr | zkloss | zkexpire
 	}
 	var bases []base
 	shapes := c07Shapes()
@@ -67,7 +67,13 @@ func TestVerifC07(t *testing.T) {
 						if succ == "other" && live == 0 {
 							continue // nobody else could become the next manager
 						}
-						for _, k := range []string{"crashmgr", "zkloss"} {
+						for _, k := range []string{"crashmgr", "zkloss", "zkexpire"} {
+							if k == "zkexpire" && os.Getenv("VERIF_LOCKROWS") == "" {
+								// server-side expiry with an instant handover is the compressed form of "cut off for longer
+								// than the session timeout"; it is used for the lock clauses (C03) only, where timing is
+								// irrelevant - the final-state clauses keep to sessions that expire by timeout (E7)
+								continue
+							}
 							bases = append(bases, base{hs, shi, rq, pol, succ, k})
 						}
 					}
@@ -125,10 +131,14 @@ func TestVerifC07(t *testing.T) {
 			var occ int
 			fmt.Sscanf(p[3], "%d", &occ)
 			kind := b.kind
+			if kind == "zkexpire" && b.succ == "other" {
+				// the session is expired by the server and another candidate asks for the lock first
+				kind = "zkexpire_other"
+			}
 			if p[0] == "zk" {
 				if kind == "crashmgr" {
 					kind = "crashmgr_after"
-				} else {
+				} else if kind == "zkloss" {
 					kind = "zkloss_after"
 				}
 			}
@@ -169,6 +179,14 @@ func TestVerifC07(t *testing.T) {
 			}
 			for _, a := range res.atts {
 				w.emit(a)
+			}
+			if os.Getenv("VERIF_LOCKROWS") != "" {
+				for _, a := range res.acts {
+					w.emit(a)
+				}
+				for _, a := range res.tolds {
+					w.emit(a)
+				}
 			}
 			meta.emit(map[string]any{"scn": sc2.ID, "scenario": sc2})
 		}
